@@ -478,7 +478,21 @@ func (w *nameWorld) readTuple(in *nInstance, t *nTuple, rng *rand.Rand) {
 	}
 	var data []byte
 	if rc != nil {
-		data, _ = io.ReadAll(rc)
+		// (grpcproxy's stream reader answers n = -1 together with an error,
+		// which io.ReadAll does not survive; read defensively)
+		buf := make([]byte, 64*lib.KiB)
+		for {
+			n, err := rc.Read(buf)
+			if n > 0 {
+				data = append(data, buf[:n]...)
+			}
+			if err != nil {
+				if err != io.EOF {
+					gerr = err
+				}
+				break
+			}
+		}
 		_ = rc.Close()
 	}
 	r.Eval()
